@@ -340,7 +340,8 @@ theorem readHead_eof {f : Bytes} (L : Layout) (s : Rd) (st : ES)
 /-- `_readHead` once more when the stream already stands at the end of the file -/
 theorem readHead_atEnd {f : Bytes} (L : Layout) (s : Rd) (hm : TifMode' L s.tif) (h : f.drop s.pos = [])
     (htn : L.tif ≠ .off → s.tif.tifNext = s.pos) :
-    ∃ s', readHead f s = .ok s' ∧ s'.isEOF = true ∧ s'.startOfLr = s.startOfLr ∧ TifMode' L s'.tif := by
+    ∃ s', readHead f s = .ok s' ∧ s'.isEOF = true ∧ s'.startOfLr = s.startOfLr ∧ TifMode' L s'.tif
+      ∧ f.drop s'.pos = [] ∧ (L.tif ≠ .off → s'.tif.tifNext = s'.pos) := by
   by_cases hon : L.tif = .off
   · have hT : s.tif.hasTif = false := by rw [hm.1]; simp [hon]
     have e1 : ∀ p, tifRead f s.tif p = .ok s.tif p none := by
@@ -349,10 +350,10 @@ theorem readHead_atEnd {f : Bytes} (L : Layout) (s : Rd) (hm : TifMode' L s.tif)
     cases hs : s.hasSuccessor
     · simp only [Bool.false_eq_true, not_false_eq_true, if_true, e1]
       rw [readHeadBody_eof _ (by simpa using h)]
-      exact ⟨_, rfl, rfl, rfl, hm⟩
+      exact ⟨_, rfl, rfl, rfl, hm, h, fun hh => absurd hon hh⟩
     · simp only [not_true_eq_false, if_false, e1]
       rw [readHeadBody_eof _ (by simpa using h)]
-      exact ⟨_, rfl, rfl, rfl, hm⟩
+      exact ⟨_, rfl, rfl, rfl, hm, h, fun hh => absurd hon hh⟩
   · have hT : s.tif.hasTif = true := by rw [hm.1]; simp [hon]
     have e1 : tifRead f s.tif s.pos = .rawEof s.tif s.pos := by
       unfold tifRead tifRead1
@@ -365,8 +366,8 @@ theorem readHead_atEnd {f : Bytes} (L : Layout) (s : Rd) (hm : TifMode' L s.tif)
     unfold readHead
     cases hs : s.hasSuccessor
     · simp only [Bool.false_eq_true, not_false_eq_true, if_true, e1]
-      exact ⟨_, rfl, rfl, rfl, hm⟩
+      exact ⟨_, rfl, rfl, rfl, hm, h, htn⟩
     · simp only [not_true_eq_false, if_false, e1]
-      exact ⟨_, rfl, rfl, rfl, hm⟩
+      exact ⟨_, rfl, rfl, rfl, hm, h, htn⟩
 
 end TD.C05
